@@ -100,6 +100,17 @@ def streams(seed, tier):
             for nb in (0, 1, 5):
                 st = state(bind=BINDS[nb], cfg=cfg(pnew=pn))
                 cases.append(case(n % 2, 2, n_draws, [st, [S("INTEGER.+")], n, STEPS, [S(d) for d in EXEC_DENY]], tape(rng)))
+    # configuration fields the code generator must not care about (INTEGER / FLOAT bounds degenerate or reversed), odd binding tables
+    for (mx, mn) in ((0, 0), (-5, 5), (5, 5), (-2147483648, 2147483647)):
+        for n in (1, 2, 5, 20):
+            for lst in ([S("INTEGER.+")], [], [S("CODE.DUP"), S("BOOLEAN.NOT")]):
+                st = state(bind=BINDS[1], cfg=cfg(maxi=mx, mini=mn, maxf=fbits(1.0), minf=fbits(2.0)))
+                cases.append(case(n % 2, 2, n_draws, [st, lst, n, STEPS, [S(d) for d in EXEC_DENY]], tape(rng)))
+    for nb in (21, 22):
+        for n in (1, 3, 12):
+            for p in (0.0, 0.5):
+                st = state(bind=BINDS[nb], cfg=cfg(pnew=p))
+                cases.append(case(n % 2, 2, n_draws, [st, [S("INTEGER.+")], n, -1, []], tape(rng)))
     out.append(Stream("exact-size", "rand", "rand.check", cases,
                       "random_code_with_size for sizes 1..80 x instruction list {empty, one, full registry} x bindings {0,1,5} x new-name probability {0,.001,.5,1} (quick: 4 of the 36 combinations per size, rotating) plus probabilities outside [0,1], infinite and NaN: valid_gen on every draw; every program printed, parsed back and executed", project=counting_project("exact-size")))
     # float-leaf volume: many small programs over the empty instruction list (an Instruction leaf is NOOP, a Name leaf a
